@@ -61,6 +61,14 @@ func (in *c15Interner) wrap(term string) string {
 
 func c15YamlUnmarshal(data []byte, into any) error { return yaml.Unmarshal(data, into) }
 
+func c15YamlLen(v any) int64 {
+	b, err := yaml.Marshal(v)
+	if err != nil {
+		return 0
+	}
+	return int64(len(b))
+}
+
 type c15Oracle struct {
 	chartDatas map[string]bool // contents of Chart.yaml / requirements.yaml files
 	metas      map[string]*chart.Metadata
